@@ -24,6 +24,7 @@ Outcome scen_objfn(const sim::Plan& p, int threads, const sc::Params& sp) { retu
 Outcome scen_norm(const sim::Plan& p, int threads, const sc::Params& sp) { return scen_norm_impl(p, threads, sp); }
 Outcome scen_scatter(const sim::Plan& p, int threads, const sc::Params& sp) { return scen_scatter_impl(p, threads, sp); }
 Outcome scen_array(const sim::Plan& p, int threads, const sc::Params& sp) { return scen_array_impl(p, threads, sp); }
+Outcome scen_lm(const sim::Plan& p, int threads, const sc::Params& sp) { return scen_lm_impl(p, threads, sp); }
 }
 #endif
 
